@@ -564,6 +564,9 @@ func (s *simCore) run(done func() bool) bool {
 			s.now = ev.t
 		}
 		s.events++
+		if s.events&1023 == 0 {
+			verifHeartbeat.Add(1)
+		}
 		if s.events > s.maxEvents {
 			s.rec.inconcl(fmt.Sprintf("event budget exhausted at t=%d ms (case hash %x)", s.now, hashAny(s.desc)))
 			s.budgetExhausted = true
